@@ -166,6 +166,44 @@ Proof.
   injection E as <- <- <- <-. right. exists i, b, vs. split; [reflexivity|exact Es].
 Qed.
 
+(* whatever the input (any integer class for the selector, any accepted encoding of the
+   arguments, trailing bytes): a dispatch that succeeds ran exactly one handler -- the one
+   the lookup gives for the selector ON THE WIRE --, with exactly the arguments decoded
+   under that handler's own types, consumed exactly selector + arguments, and appended
+   exactly the serialization of that handler's return value *)
+Theorem dispatch_success_any_input b32 bs pass inp out log inp' out' log' :
+  dispatch b32 bs pass (inp, out, log) = Ok tt (inp', out', log') ->
+  exists s inp1 i b args,
+    dec (sel_ty b32) lr_ops inp = Ok (VInt s) inp1 /\
+    lookup (Z.to_N s) bs 0 = Some (i, b) /\
+    dec (args_ty (b_args b)) lr_ops inp1 = Ok (VSeq args) inp' /\
+    log' = log ++ [{| k_idx := i; k_pass := pass; k_args := args |}] /\
+    serialize (b_ret b) (b_fn b pass args) lw_ops out = Ok tt out'.
+Proof.
+  intros E. unfold dispatch in E.
+  destruct (dec (sel_ty b32) lr_ops inp) as [v inp1|e1 inp1] eqn:E1; [|discriminate].
+  destruct v; try discriminate.
+  destruct (lookup (Z.to_N z) bs 0) as [[i b]|] eqn:El; [|discriminate].
+  destruct (dec (args_ty (b_args b)) lr_ops inp1) as [v2 inp2|e2 inp2] eqn:E2; [|discriminate].
+  destruct v2; try discriminate.
+  destruct (serialize (b_ret b) (b_fn b pass vs) lw_ops out) as [u o|e3 o] eqn:Es; [|discriminate].
+  injection E as <- <- <-. destruct u.
+  exists z, inp1, i, b, vs. repeat split; try reflexivity; assumption.
+Qed.
+
+(* hence, on any input, one dispatch runs at most one handler *)
+Theorem dispatch_at_most_one_handler b32 bs pass inp out log r inp' out' log' :
+  dispatch b32 bs pass (inp, out, log) = r ->
+  (r = Ok tt (inp', out', log') \/ exists e, r = Err e (inp', out', log')) ->
+  log' = log \/ exists c, log' = log ++ [c].
+Proof.
+  intros E [->|[e ->]].
+  - apply dispatch_success_any_input in E. destruct E as (s & inp1 & i & b & args & _ & _ & _ & -> & _).
+    right. eexists. reflexivity.
+  - apply dispatch_failure_is_silent in E. destruct E as [[-> _]|(i & b & args & -> & _)]; [left; reflexivity|].
+    right. eexists. reflexivity.
+Qed.
+
 (* the lookup finds a binding with the requested selector, and with unique selectors
    (InterfaceAPI's static_assert) it is the only one *)
 Lemma lookup_sound sel bs k i b : lookup sel bs k = Some (i, b) ->
